@@ -4,7 +4,9 @@ LOWER = "abcdefghijklmnopqrstuvwxyz"
 UPPER = "ABCDEFGHIJKLMNOPQRSTUVWXYZ"
 DIGITS = "0123456789"
 ALNUM = LOWER + UPPER + DIGITS
-UNICODE_BITS = ["é", "ü", "ß", "Ω", "ж", "日本", "✓", "ñ"]
+UNICODE_BITS = ["é", "ü", "ß", "Ω", "ж", "日本", "✓", "ñ",
+                # not in composed normal form (NFC would change them); look-alike digits; astral plane
+                "e\u0301", "A\u030a", "\u2126", "\u212b", "\ufb01", "\u0663", "\uff17", "\u00b2", "\U0001f600"]
 WORDS = ["Fedora", "Red Hat Enterprise Linux", "Server", "Client", "Workstation", "Cloud", "Spacewalk",
          "Atomic Host", "CoreOS", "Satellite", "Storage", "Tools", "Everything", "Supplementary"]
 
@@ -48,7 +50,15 @@ def numeric_version(rng, parts=None):
 
 
 def freeform_version(rng):
-    return rng.choice(["Rawhide", "rawhide", "Bikeshed", "beta", "el", "x"]) + rng.choice(["", "", "1", ".2", "_3", " 4", "é"])
+    s = rng.choice(["Rawhide", "rawhide", "Bikeshed", "beta", "el", "x"]) + rng.choice(["", "", "1", ".2", "_3", " 4", "é"])
+    r = rng.random()
+    if r < 0.06:
+        s = s + rng.choice([" ", "\t", "\u00a0", "\u3000", "  "])       # blanks are legal in a free-form version, also at its end
+    elif r < 0.1:
+        s = rng.choice([" ", "\u00a0", "\u0663", "\uff17", "\u00b2"]) + s  # ... and at its start; a non-ASCII digit is not a digit here
+    elif r < 0.12:
+        s = rng.choice([" ", "\u3000", "\u0663x", "\uff17.1"])
+    return s
 
 
 def rel_path(rng, depth=None, hostile=False):
